@@ -293,3 +293,33 @@ Proof.
   - intros H; inversion H; subst. apply bt_refl.
   - destruct (cstep c st0 l) as [st1 o| | | ] eqn:S; try discriminate. intros H. eapply btrace_front; [exact S|apply IH; exact H].
 Qed.
+
+(* ---- remove(): the Delete marker is never lost (the repaired D12) ---- *)
+
+(* remove() never returns without having queued its Delete marker behind everything already in the
+   buffer, unless the processor has exited (the cache is closed): it reports Ok in both cases and no
+   other outcome exists (the repaired D12: no error, no panic, no lost marker). *)
+Theorem remove_queues_its_marker c st a k cf st' o :
+  client_of st a = KRemSend k cf -> cstep c st (LClient a) = StepOk st' o ->
+  o = mk_out PtFinish [] (RUnit true) /\ client_of st' a = KIdle /\
+  (s_buf st' = s_buf st ++ [IDelete k cf] \/ (s_pc st = PExited /\ s_buf st' = s_buf st)).
+Proof.
+  intros K H. cbn [cstep] in H. unfold continue_client in H. rewrite K in H. unfold buf_send in H.
+  destruct (s_pc st) eqn:PC;
+    try (destruct (N.of_nat (length (s_buf st)) <? c_buf_cap c); [|discriminate]);
+    inversion H; subst; (split; [reflexivity|split; [rewrite client_of_set, N.eqb_refl; reflexivity|]]); sproj; auto.
+Qed.
+
+(* a remove() waiting for room is never stranded: it can finish right now, or the buffer is full
+   of items in front of a live processor (which takes them one by one, C10_buffer_is_fifo) *)
+Theorem remove_never_stuck c st a k cf :
+  client_of st a = KRemSend k cf ->
+  (exists st', cstep c st (LClient a) = StepOk st' (mk_out PtFinish [] (RUnit true))) \/
+  (s_pc st <> PExited /\ c_buf_cap c <= N.of_nat (length (s_buf st))).
+Proof.
+  intros K. cbn [cstep]. unfold continue_client. rewrite K. unfold buf_send.
+  destruct (s_pc st) eqn:PC;
+    try (destruct (N.of_nat (length (s_buf st)) <? c_buf_cap c) eqn:E;
+         [left; eexists; reflexivity|right; split; [discriminate|lia]]).
+  left. eexists. reflexivity.
+Qed.
